@@ -243,15 +243,30 @@ def load_known(pid):
     return out
 
 
+_SHRINK_SPENT = [0.0]
+SHRINK_BUDGET_S = float(os.environ.get('VERIF_SHRINK_S', '45'))
+
+
 def shrink(binp, work, fam, case, budget=12):
-    """delta debugging on input.ops, re-running implementation and oracle each round"""
+    """delta debugging on input.ops, re-running implementation and oracle each round; all shrinking
+    of one check shares a wall-clock budget (a replay that is longer than it could be is still a
+    replay; a quick check that takes ten minutes is not quick)"""
+    t_start = time.time()
+    try:
+        return _shrink(binp, work, fam, case, budget)
+    finally:
+        _SHRINK_SPENT[0] += time.time() - t_start
+
+
+def _shrink(binp, work, fam, case, budget):
     inp = case['input']
     if not isinstance(inp, dict) or not isinstance(inp.get('ops'), list) or len(inp['ops']) < 2:
         return case
     cur = inp
     n = 2
     rounds = 0
-    while len(cur['ops']) >= 2 and rounds < budget:
+    t0 = time.time()
+    while len(cur['ops']) >= 2 and rounds < budget and _SHRINK_SPENT[0] + (time.time() - t0) < SHRINK_BUDGET_S:
         rounds += 1
         ops = cur['ops']
         size = max(1, len(ops) // n)
@@ -264,7 +279,8 @@ def shrink(binp, work, fam, case, budget=12):
         if not cands:
             break
         try:
-            res = harness_run(binp, fam['name'], cands)
+            left = SHRINK_BUDGET_S - _SHRINK_SPENT[0] - (time.time() - t0)
+            res = harness_run(binp, fam['name'], cands, timeout=int(max(20, left + 15)))
             _, O = evaluate(work, fam['corr'], res)
         except Exception:
             break
